@@ -1322,11 +1322,39 @@ def extra_oracle_cases(ctx: C.Ctx) -> List[Any]:
     return out
 
 
+def check_independent(D, case) -> Optional[C.Failing]:
+    """`["independent", type name, literal]`: two parses of one literal give independent values — the first result is edited in place
+    (possible for the bytearray-based binary types and for durations), the literal is parsed again and must denote what it did."""
+    _, ty, lit = case
+    T = getattr(D, ty)
+    first = D.from_xsd(lit, T)
+    before = D.xsd_repr(first)
+    if isinstance(first, bytearray):
+        first.extend(b"\xff")
+    elif hasattr(first, "years"):
+        first.years = first.years + 1
+    else:
+        return None
+    again = D.from_xsd(lit, T)
+    if again is first or D.xsd_repr(again) != before:
+        return C.Failing(f"lex:parse:{ty}:result-aliased", f"from_xsd({lit!r}, {ty}) parsed again after its first result was edited in place "
+                         f"gives {D.xsd_repr(again)!r}, the literal denotes {before!r}", case)
+    return None
+
+
+INDEPENDENT_CASES = [["independent", "Base64Binary", "YWJj"], ["independent", "Base64Binary", ""], ["independent", "HexBinary", "0aff"],
+                     ["independent", "HexBinary", ""], ["independent", "Duration", "P1Y2M"], ["independent", "Duration", "PT0S"]]
+
+
 def oracle(ctx: C.Ctx, cov: C.Coverage) -> List[C.Failing]:
     D = _D()
     ctx2 = C.Ctx(ctx.prop, ctx.tier, ctx.seed, random.Random(f"{ctx.prop}:{ctx.seed}"), ctx.t0, ctx.jobs)
     cases = [[op, ty, arg] for op, ty, arg, _ in gen_cases(ctx2) if op != "valid"] + extra_oracle_cases(ctx)
     out: List[C.Failing] = check_names(D)
+    for ic in INDEPENDENT_CASES:
+        f = check_independent(D, ic)
+        if f is not None and f.sig not in {g.sig for g in out}:
+            out.append(f)
     sigs = {f.sig for f in out}
     n = 0
     for case in cases:
@@ -1359,4 +1387,6 @@ def search(ctx: C.Ctx, disagreements, broken) -> List[C.Failing]:
 
 
 def replay(case) -> Optional[C.Failing]:
+    if isinstance(case, list) and case and case[0] == "independent":
+        return check_independent(_D(), case)
     return check_case(_D(), case)
